@@ -37,6 +37,6 @@ ASSUMPTIONS = [
     "a table grown from 2 slots passes through every state a table initialised with more slots can be in (tables never shrink, "
     "keys can be removed), so initial sizes other than 0 and 16 add only the init path",
     "replayed history prefixes keep the per-operation result checks but skip the whole-state oracle (it ran when the prefix was first "
-    "explored; the engine verifies the canonical state after every replay)",
+    "explored; the engine verifies the canonical state after every replay); --replay runs the full oracle at every step",
     "states are de-duplicated on a 128-bit hash of the canonical state (hash compaction)",
 ]
